@@ -95,6 +95,20 @@ class ListEval:
             return self.ev(e.body if t else e.orelse)
         if isinstance(e, ast.UnaryOp) and isinstance(e.op, ast.USub):
             return -self.ev(e.operand)
+        if isinstance(e, ast.UnaryOp) and isinstance(e.op, ast.Not):
+            t = self.ev(e.operand)
+            if not isinstance(t, bool):
+                raise AnalysisError("list program: non-boolean condition")
+            return not t
+        if isinstance(e, ast.Compare) and len(e.ops) == 1:
+            a, b = self.ev(e.left), self.ev(e.comparators[0])
+            if isinstance(a, int) and isinstance(b, int):
+                import operator
+
+                table = {ast.Eq: operator.eq, ast.NotEq: operator.ne, ast.Lt: operator.lt, ast.LtE: operator.le, ast.Gt: operator.gt, ast.GtE: operator.ge}
+                if type(e.ops[0]) in table:
+                    return table[type(e.ops[0])](a, b)
+            raise AnalysisError(f"list program: unsupported comparison {norm(e)[:60]}")
         if isinstance(e, ast.BinOp):
             a, b = self.ev(e.left), self.ev(e.right)
             op = e.op
@@ -167,9 +181,25 @@ class ListEval:
                 if isinstance(c.func, ast.Attribute) and c.func.attr == "append" and isinstance(c.func.value, ast.Name):
                     self.env[c.func.value.id].append(self.ev(c.args[0]))
                     continue
+                if isinstance(c.func, ast.Attribute) and c.func.attr in ("reverse", "extend", "insert") and isinstance(c.func.value, ast.Name) and isinstance(self.env.get(c.func.value.id), list):
+                    getattr(self.env[c.func.value.id], c.func.attr)(*[self.ev(a) for a in c.args])
+                    continue
                 if call_name(c) == "super().__init__":
                     continue
                 raise AnalysisError(f"list program: unsupported statement {norm(st)[:60]}")
+            if isinstance(st, ast.If):
+                t = self.ev(st.test)
+                if not isinstance(t, bool):
+                    raise AnalysisError("list program: non-boolean condition")
+                self.run(st.body if t else st.orelse)
+                continue
+            if isinstance(st, ast.AugAssign) and isinstance(st.target, ast.Name) and isinstance(st.op, (ast.Add, ast.Mult)) and isinstance(self.env.get(st.target.id), list):
+                v = self.ev(st.value)
+                if isinstance(st.op, ast.Add):
+                    self.env[st.target.id].extend(v)  # in place, like list.__iadd__
+                else:
+                    self.env[st.target.id][:] = self.env[st.target.id] * v
+                continue
             if isinstance(st, ast.Assign) and len(st.targets) == 1:
                 t = st.targets[0]
                 v = self.ev(st.value)
